@@ -3,8 +3,6 @@ package main
 import (
 	"fmt"
 	"math/rand"
-	"net"
-	"sort"
 
 	"github.com/sirupsen/logrus"
 
@@ -17,9 +15,10 @@ import (
 	"github.com/projectcalico/calico/felix/rules"
 
 	"verifharness/nfparse"
+	"verifharness/polgen"
 )
 
-type M = map[string]any
+type M = polgen.M
 
 // Mark bits used by every case.  Low bits so that they fit TLC's 32-bit integers if ever printed;
 // the IR carries bit positions, not values.
@@ -109,13 +108,7 @@ func flavourName(nft bool) string {
 // IP sets of a case: id -> contents (reference side) and rendered kernel name -> contents (IR side).
 // The kernel name is computed by the code the real dataplane uses to name the set it programs.
 
-type ipset struct {
-	ID      string
-	Type    string // "net" | "ipport"
-	Members []M
-}
-
-func setsJSON(sets []*ipset, cfg *rules.Config, ipv uint8, nft bool) (byID M, byName M) {
+func setsJSON(sets []*polgen.IPSet, cfg *rules.Config, ipv uint8, nft bool) (byID M, byName M) {
 	byID = M{"_none": M{"type": "net", "members": []M{}}}
 	byName = M{"_none": M{"type": "net", "members": []M{}}}
 	for _, s := range sets {
@@ -135,386 +128,15 @@ func setsJSON(sets []*ipset, cfg *rules.Config, ipv uint8, nft bool) (byID M, by
 	return
 }
 
-// ---------------------------------------------------------------------------------------------
-// proto.Rule -> PolicySem JSON (field-by-field copy; CIDR strings to octets, protocol names to numbers)
+// generator / exporter live in verifharness/polgen (shared with the BPF and app-policy checks)
+var (
+	semRule  = polgen.SemRule
+	semRules = polgen.SemRules
+	randRule = polgen.RandRule
+)
 
-func semProto(p *proto.Protocol) int {
-	if p == nil {
-		return 0
-	}
-	switch v := p.NumberOrName.(type) {
-	case *proto.Protocol_Name:
-		n, err := nfparse.ProtoNum(v.Name)
-		if err != nil {
-			panic(err)
-		}
-		return n
-	case *proto.Protocol_Number:
-		return int(v.Number)
-	}
-	return 0
-}
-
-func semNets(in []string) []M {
-	out := []M{}
-	for _, s := range in {
-		c, err := nfparse.CIDR(s)
-		if err != nil {
-			panic(err)
-		}
-		out = append(out, c)
-	}
-	return out
-}
-
-func semPorts(in []*proto.PortRange) [][]int {
-	out := [][]int{}
-	for _, p := range in {
-		out = append(out, []int{int(p.First), int(p.Last)})
-	}
-	return out
-}
-
-func strs(in []string) []string {
-	if in == nil {
-		return []string{}
-	}
-	return in
-}
-
-func semRule(r *proto.Rule) M {
-	icmp := []int{}
-	switch v := r.Icmp.(type) {
-	case *proto.Rule_IcmpType:
-		icmp = []int{int(v.IcmpType)}
-	case *proto.Rule_IcmpTypeCode:
-		icmp = []int{int(v.IcmpTypeCode.Type), int(v.IcmpTypeCode.Code)}
-	}
-	notIcmp := []int{}
-	switch v := r.NotIcmp.(type) {
-	case *proto.Rule_NotIcmpType:
-		notIcmp = []int{int(v.NotIcmpType)}
-	case *proto.Rule_NotIcmpTypeCode:
-		notIcmp = []int{int(v.NotIcmpTypeCode.Type), int(v.NotIcmpTypeCode.Code)}
-	}
-	return M{
-		"action": r.Action, "ipv": int(r.IpVersion),
-		"proto": semProto(r.Protocol), "notProto": semProto(r.NotProtocol),
-		"srcNets": semNets(r.SrcNet), "notSrcNets": semNets(r.NotSrcNet),
-		"dstNets": semNets(r.DstNet), "notDstNets": semNets(r.NotDstNet),
-		"srcPorts": semPorts(r.SrcPorts), "notSrcPorts": semPorts(r.NotSrcPorts),
-		"dstPorts": semPorts(r.DstPorts), "notDstPorts": semPorts(r.NotDstPorts),
-		"srcNamed": strs(r.SrcNamedPortIpSetIds), "notSrcNamed": strs(r.NotSrcNamedPortIpSetIds),
-		"dstNamed": strs(r.DstNamedPortIpSetIds), "notDstNamed": strs(r.NotDstNamedPortIpSetIds),
-		"srcSets": strs(r.SrcIpSetIds), "notSrcSets": strs(r.NotSrcIpSetIds),
-		"dstSets": strs(r.DstIpSetIds), "notDstSets": strs(r.NotDstIpSetIds),
-		"dstIpPortSets": strs(r.DstIpPortSetIds),
-		"icmp":          icmp, "notIcmp": notIcmp,
-	}
-}
-
-func semRules(in []*proto.Rule) []M {
-	out := []M{}
-	for _, r := range in {
-		out = append(out, semRule(r))
-	}
-	return out
-}
-
-// ---------------------------------------------------------------------------------------------
-// random material
-
-var cidrPool = map[uint8][]string{
-	4: {"10.0.0.0/8", "10.1.0.0/16", "10.1.2.0/24", "10.1.2.3/32", "10.1.2.4/30", "192.168.0.0/30", "128.0.0.0/1",
-		"0.0.0.0/1", "255.255.255.255/32", "0.0.0.0/32", "172.16.0.0/12", "10.255.255.0/24", "10.1.3.0/24", "11.0.0.0/8"},
-	6: {"fd00::/8", "fd00:1::/32", "fd00:1::1/128", "fd00:1::/126", "fe80::/10", "8000::/1", "::/1",
-		"ffff:ffff:ffff:ffff:ffff:ffff:ffff:ffff/128", "::/128", "fd00:1:2::/48", "fd00:1:0:ffff::/64", "fc00::/7", "2001:db8::/33"},
-}
-
-var addrPool = map[uint8][]string{
-	4: {"10.1.2.3", "10.1.2.4", "10.0.0.1", "10.255.255.255", "192.168.0.1", "172.16.0.9", "11.0.0.0", "9.255.255.255", "0.0.0.0", "255.255.255.255"},
-	6: {"fd00:1::1", "fd00:1::2", "fd00::1", "fe80::1", "2001:db8::1", "fdff:ffff:ffff:ffff:ffff:ffff:ffff:ffff", "::", "ffff:ffff:ffff:ffff:ffff:ffff:ffff:ffff"},
-}
-
-func catchAll(ipv uint8) string {
-	if ipv == 4 {
-		return "0.0.0.0/0"
-	}
-	return "::/0"
-}
-
-func pick[T any](rnd *rand.Rand, xs []T) T { return xs[rnd.Intn(len(xs))] }
-
-func chance(rnd *rand.Rand, pct int) bool { return rnd.Intn(100) < pct }
-
-func otherV(ipv uint8) uint8 {
-	if ipv == 4 {
-		return 6
-	}
-	return 4
-}
-
-func randNets(rnd *rand.Rand, ipv uint8, max int, negated bool) []string {
-	n := 0
-	if chance(rnd, 45) {
-		n = 1 + rnd.Intn(max)
-	}
-	var out []string
-	seen := map[string]bool{}
-	for i := 0; i < n; i++ {
-		fam := ipv
-		if chance(rnd, 6) {
-			fam = otherV(ipv) // mixed-family list: filterNets must drop the foreign entries
-		}
-		c := pick(rnd, cidrPool[fam])
-		if chance(rnd, 5) {
-			c = catchAll(fam) // incl. the negated catch-all that filterNets turns into "rule never matches"
-		}
-		if !seen[c] {
-			seen[c] = true
-			out = append(out, c)
-		}
-	}
-	return out
-}
-
-func randPorts(rnd *rand.Rand) []*proto.PortRange {
-	var n int
-	switch rnd.Intn(10) {
-	case 0, 1, 2, 3:
-		n = 1 + rnd.Intn(3)
-	case 4, 5:
-		n = 6 + rnd.Intn(6) // crosses 15 slots only with ranges
-	case 6:
-		n = 14 + rnd.Intn(4) // around the 15-slot boundary
-	case 7:
-		n = 28 + rnd.Intn(13) // two or three splits
-	default:
-		n = 1
-	}
-	var out []*proto.PortRange
-	for i := 0; i < n; i++ {
-		base := int32(pick(rnd, []int{0, 1, 22, 53, 80, 443, 1000, 8080, 30000, 65534, 65535}))
-		if chance(rnd, 60) {
-			base = int32(rnd.Intn(65536))
-		}
-		last := base
-		if chance(rnd, 35) {
-			last = base + int32(rnd.Intn(40))
-			if chance(rnd, 10) {
-				last = base + int32(rnd.Intn(30000))
-			}
-			if last > 65535 {
-				last = 65535
-			}
-		}
-		out = append(out, &proto.PortRange{First: base, Last: last})
-	}
-	return out
-}
-
-type setGen struct {
-	rnd  *rand.Rand
-	ipv  uint8
-	sets []*ipset
-	n    int
-}
-
-func (g *setGen) netSet() string {
-	g.n++
-	id := fmt.Sprintf("s:%dset%c", g.n, 'a'+rune(g.rnd.Intn(26)))
-	s := &ipset{ID: id, Type: "net"}
-	k := g.rnd.Intn(4)
-	for i := 0; i < k; i++ {
-		var c string
-		if chance(g.rnd, 60) {
-			c = pick(g.rnd, addrPool[g.ipv])
-		} else {
-			c = pick(g.rnd, cidrPool[g.ipv])
-		}
-		m, _ := nfparse.CIDR(c)
-		s.Members = append(s.Members, m)
-	}
-	if s.Members == nil {
-		s.Members = []M{}
-	}
-	g.sets = append(g.sets, s)
-	return id
-}
-
-func (g *setGen) portSet(protos []int) string {
-	g.n++
-	id := fmt.Sprintf("n:%dnp%c", g.n, 'a'+rune(g.rnd.Intn(26)))
-	s := &ipset{ID: id, Type: "ipport", Members: []M{}}
-	k := g.rnd.Intn(4)
-	for i := 0; i < k; i++ {
-		a, _ := nfparse.Addr(pick(g.rnd, addrPool[g.ipv]))
-		s.Members = append(s.Members, M{"a": a, "p": pick(g.rnd, protos), "port": pick(g.rnd, []int{1, 53, 80, 8080, 65535, g.rnd.Intn(65536)})})
-	}
-	g.sets = append(g.sets, s)
-	return id
-}
-
-func protoByName(n string) *proto.Protocol {
-	return &proto.Protocol{NumberOrName: &proto.Protocol_Name{Name: n}}
-}
-func protoByNum(n int32) *proto.Protocol {
-	return &proto.Protocol{NumberOrName: &proto.Protocol_Number{Number: n}}
-}
-
-// randRule generates a rule that passes the API validation (ports only with a port protocol, ICMP
-// fields only with the ICMP protocol of the right family, ...) but is otherwise arbitrary, including
-// the shapes DESIGN lists: mixed-family CIDR lists, negated catch-all, >15 port slots, named ports,
-// positive/negated IP sets, ICMP type / type+code / negated, every action, ipVersion 0/4/6.
-func randRule(rnd *rand.Rand, ipv uint8, sg *setGen) *proto.Rule {
-	r := &proto.Rule{}
-	r.Action = pick(rnd, []string{"allow", "allow", "deny", "deny", "pass", "next-tier", "log", ""})
-	switch rnd.Intn(10) {
-	case 0:
-		r.IpVersion = proto.IPVersion(otherV(ipv))
-	case 1, 2, 3:
-		r.IpVersion = proto.IPVersion(ipv)
-	}
-	portProto := false
-	icmpProto := false
-	switch rnd.Intn(12) {
-	case 0, 1, 2:
-		r.Protocol = protoByName(pick(rnd, []string{"tcp", "udp", "sctp"}))
-		portProto = true
-	case 3:
-		r.Protocol = protoByNum(int32(pick(rnd, []int{6, 17, 132})))
-		portProto = true
-	case 4:
-		if ipv == 4 {
-			r.Protocol = protoByName("icmp")
-		} else {
-			r.Protocol = protoByName("icmpv6")
-		}
-		// the calculation graph derives the IP version from the ICMP protocol name
-		r.IpVersion = proto.IPVersion(ipv)
-		icmpProto = true
-	case 5:
-		if ipv == 4 {
-			r.Protocol = protoByNum(1)
-		} else {
-			r.Protocol = protoByNum(58)
-		}
-		r.IpVersion = proto.IPVersion(ipv)
-		icmpProto = true
-	case 6:
-		r.Protocol = protoByName("udplite")
-	case 7:
-		r.Protocol = protoByNum(int32(pick(rnd, []int{4, 47, 50, 255, 2})))
-	}
-	if chance(rnd, 12) {
-		if chance(rnd, 50) {
-			r.NotProtocol = protoByName(pick(rnd, []string{"tcp", "udp", "sctp", "udplite"}))
-		} else {
-			r.NotProtocol = protoByNum(int32(pick(rnd, []int{6, 17, 1, 58, 47})))
-		}
-	}
-	r.SrcNet = randNets(rnd, ipv, 3, false)
-	r.DstNet = randNets(rnd, ipv, 3, false)
-	if chance(rnd, 40) {
-		r.NotSrcNet = randNets(rnd, ipv, 3, true)
-	}
-	if chance(rnd, 40) {
-		r.NotDstNet = randNets(rnd, ipv, 3, true)
-	}
-	if portProto {
-		if chance(rnd, 35) {
-			r.SrcPorts = randPorts(rnd)
-		}
-		if chance(rnd, 60) {
-			r.DstPorts = randPorts(rnd)
-		}
-		if chance(rnd, 15) {
-			r.NotSrcPorts = randPorts(rnd)
-		}
-		if chance(rnd, 20) {
-			r.NotDstPorts = randPorts(rnd)
-		}
-	}
-	// named ports: with a port protocol, or with no protocol at all (the validator allows both)
-	if portProto || r.Protocol == nil {
-		protos := []int{6, 17, 132}
-		if portProto {
-			protos = []int{semProto(r.Protocol), semProto(r.Protocol), pick(rnd, protos)}
-		}
-		if chance(rnd, 20) {
-			for i := 0; i <= rnd.Intn(2); i++ {
-				r.DstNamedPortIpSetIds = append(r.DstNamedPortIpSetIds, sg.portSet(protos))
-			}
-		}
-		if chance(rnd, 8) {
-			r.SrcNamedPortIpSetIds = append(r.SrcNamedPortIpSetIds, sg.portSet(protos))
-		}
-		if chance(rnd, 8) {
-			r.NotDstNamedPortIpSetIds = append(r.NotDstNamedPortIpSetIds, sg.portSet(protos))
-		}
-		if chance(rnd, 5) {
-			r.NotSrcNamedPortIpSetIds = append(r.NotSrcNamedPortIpSetIds, sg.portSet(protos))
-		}
-		if chance(rnd, 6) && len(r.DstPorts) == 0 && len(r.DstNamedPortIpSetIds) == 0 {
-			r.DstIpPortSetIds = append(r.DstIpPortSetIds, sg.portSet(protos))
-		}
-	}
-	if chance(rnd, 25) {
-		for i := 0; i <= rnd.Intn(2); i++ {
-			r.SrcIpSetIds = append(r.SrcIpSetIds, sg.netSet())
-		}
-	}
-	if chance(rnd, 25) {
-		r.DstIpSetIds = append(r.DstIpSetIds, sg.netSet())
-	}
-	if chance(rnd, 15) {
-		r.NotSrcIpSetIds = append(r.NotSrcIpSetIds, sg.netSet())
-	}
-	if chance(rnd, 15) {
-		for i := 0; i <= rnd.Intn(2); i++ {
-			r.NotDstIpSetIds = append(r.NotDstIpSetIds, sg.netSet())
-		}
-	}
-	if icmpProto {
-		ty := int32(pick(rnd, []int{0, 3, 8, 128, 135, 254, rnd.Intn(255)}))
-		co := int32(pick(rnd, []int{0, 1, 4, 255, rnd.Intn(256)}))
-		switch rnd.Intn(4) {
-		case 0:
-			r.Icmp = &proto.Rule_IcmpType{IcmpType: ty}
-		case 1:
-			r.Icmp = &proto.Rule_IcmpTypeCode{IcmpTypeCode: &proto.IcmpTypeAndCode{Type: ty, Code: co}}
-		}
-		ty2 := int32(pick(rnd, []int{0, 3, 8, 128, 254, int(ty)}))
-		switch rnd.Intn(5) {
-		case 0:
-			r.NotIcmp = &proto.Rule_NotIcmpType{NotIcmpType: ty2}
-		case 1:
-			r.NotIcmp = &proto.Rule_NotIcmpTypeCode{NotIcmpTypeCode: &proto.IcmpTypeAndCode{Type: ty2, Code: co}}
-		}
-	}
-	return r
-}
-
-func ipOctets(s string) []int {
-	ip := net.ParseIP(s)
-	var out []int
-	if v4 := ip.To4(); v4 != nil {
-		for _, b := range v4 {
-			out = append(out, int(b))
-		}
-		return out
-	}
-	for _, b := range ip.To16() {
-		out = append(out, int(b))
-	}
-	return out
-}
-
-func sortedKeys[V any](m map[string]V) []string {
-	ks := make([]string, 0, len(m))
-	for k := range m {
-		ks = append(ks, k)
-	}
-	sort.Strings(ks)
-	return ks
-}
+func chance(rnd *rand.Rand, pct int) bool       { return polgen.Chance(rnd, pct) }
+func pick[T any](rnd *rand.Rand, xs []T) T      { return polgen.Pick(rnd, xs) }
+func protoByName(n string) *proto.Protocol      { return polgen.ProtoByName(n) }
+func protoByNum(n int32) *proto.Protocol        { return polgen.ProtoByNum(n) }
+func sortedKeys[V any](m map[string]V) []string { return polgen.SortedKeys(m) }
